@@ -335,3 +335,5 @@ def run_case(case, res):
 
 def crash_sig(case, ex, where, tb):
     return "C19_crash:%s@%s" % (type(ex).__name__, where)
+
+RULE += (" " + "3 and 4 features; integer-typed evaluation samples; data sets that already carry the learning scaling (from the object's own getters) are evaluated as they are.")
